@@ -30,8 +30,10 @@ class Pool:
             "H11": b.helmholtz.single_layer(s[1], s[1], s[1], 0.8 + 0.3j),
             "V33": b.laplace.single_layer(s[3], s[3], s[3]),
             "X12": b.laplace.single_layer(s[1], s[2], s[1]),
+            "S11": b.laplace.double_layer(s[1], s[1], s[1], precision="single"),
         }
         self.W = {k: np.asarray(v.weak_form().to_dense()) for k, v in self.bo.items()}
+        self.W = {k: w.astype(np.result_type(w.dtype, np.float64)) for k, w in self.W.items()}     # the single-precision atom: numbers as assembled, arithmetic in double
         rng = np.random.RandomState(3)
         self.c = {"f1": rng.randint(-3, 4, 8).astype(float), "g1": rng.randint(-3, 4, 8) + 1j * rng.randint(-3, 4, 8),
                   "f2": rng.randint(-3, 4, 12).astype(float), "f3": rng.randint(-3, 4, 36).astype(float)}
